@@ -214,11 +214,22 @@ func c08SignEdges(it *c09Iter, k ssa.Value, obj c09DescObj, constOf func(ssa.Val
 
 // c08Passes: the loops of f (classic or range-over-func) over a value in
 // `maps`, with the key-vs-digest selection made in the body or by the iterator.
-func c08Passes(f *ssa.Function, maps map[ssa.Value]bool) []c08Pass {
+func c08Passes(p *Prog, f *ssa.Function, maps map[ssa.Value]bool) []c08Pass {
 	var out []c08Pass
 	for _, it := range c09ItersIn(f) {
-		if it.Coll == nil || it.Val == nil || !(maps[it.Coll] || maps[c09Resolved(it.Coll)]) {
+		if it.Coll == nil || it.Val == nil {
 			continue
+		}
+		if !(maps[it.Coll] || maps[c09Resolved(it.Coll)]) {
+			// … or handed in through a parameter / a field of a carrier struct
+			os, ok := c09Origins(p, it.Coll, 2, nil)
+			all := ok && len(os) > 0
+			for _, o := range os {
+				all = all && (maps[o] || maps[c09Resolved(o)])
+			}
+			if !all {
+				continue
+			}
 		}
 		p := c08Pass{it: it, fn: it.Fn, l: it.Loop, k: it.Key, v: it.Val}
 		p.obj = c09DescObjOf(p.v)
@@ -508,6 +519,13 @@ func c08R1(c *Ctx, r *c08Roles) {
 				for _, e := range u.Edges {
 					grow(e)
 				}
+			case *ssa.Parameter:
+				// the accumulator handed to a helper that appends to it: what the call sites pass
+				if os, ok := c09Origins(c.P, u, 1, nil); ok && !(len(os) == 1 && os[0] == ssa.Value(u)) {
+					for _, o := range os {
+						grow(o)
+					}
+				}
 			case *ssa.UnOp:
 				// a local accumulated in a cell (captured by the body of a range-over-func loop): everything stored to it
 				if u.Op == token.MUL {
@@ -561,7 +579,7 @@ func c08R1(c *Ctx, r *c08Roles) {
 					}
 				}
 			}
-			passes = append(passes, c08Passes(h, maps)...)
+			passes = append(passes, c08Passes(c.P, h, maps)...)
 		}
 		// pass 1: every ref != digest entry is appended
 		var p1 *c08Pass
@@ -1255,19 +1273,21 @@ func c08PathBase(g *ssa.Function) *ssa.Function {
 			if s, isC := constString(a.Val); isC && s == "" {
 				continue
 			}
-			ex, ok := a.Val.(*ssa.Extract)
-			if !ok {
+			// the returned path is computed from the result of another one-argument path function of the package
+			var via *ssa.Function
+			for _, pc := range Calls(g, func(string) bool { return true }) {
+				h := StaticCallee(pc)
+				if h == nil || h == g || fnPkgPath(h) != fnPkgPath(g) || h.Signature.Params().Len() != 1 {
+					continue
+				}
+				if v := ResultOf(pc, 0); v != nil && (a.Val == v || c09Uses(a.Val, v, 0)) {
+					via = h
+				}
+			}
+			if via == nil {
 				return g
 			}
-			call, ok := ex.Tuple.(*ssa.Call)
-			if !ok || ex.Index != 0 {
-				return g
-			}
-			h := StaticCallee(call)
-			if h == nil || fnPkgPath(h) != fnPkgPath(g) || h.Signature.Params().Len() != 1 {
-				return g
-			}
-			inner = h
+			inner = via
 		}
 		if inner == nil {
 			return g
